@@ -128,6 +128,17 @@ func init() {
 			}
 			return mkInt(64, uint64(s.liveOthers())), true
 		},
+		// vSchedPoints(n): n >= 2 makes go statements, channel operations, select and atomics scheduling points (under vSchedForks)
+		"vSchedPoints": func(g *Goroutine, c *frame, fn *ssa.Function, a []Value) (Value, bool) {
+			g.p.schedPoints = int(g.forceInt(a[0]))
+			return Value{}, true
+		},
+		// vDelays(k): delay-bounded schedule exploration - every schedule that deviates at most k times from the default scheduler
+		"vDelays": func(g *Goroutine, c *frame, fn *ssa.Function, a []Value) (Value, bool) {
+			g.p.delayBound = true
+			g.p.delayLeft = int(g.forceInt(a[0]))
+			return Value{}, true
+		},
 		"vSchedForks": func(g *Goroutine, c *frame, fn *ssa.Function, a []Value) (Value, bool) {
 			g.p.schedForks = g.forceBool(a[0])
 			return Value{}, true
